@@ -254,6 +254,11 @@ def run(ctx):
         ctx.bad("R6", fd_.construct, fd_.where, fd_.detail, fd_.scope, fd_.construct)
     for u in getattr(sub_, "unknowns", []):
         ctx.unknown("R6", "edge weight", "", u)
+    # ------------------------------------------------------------------ R7 the searched graph is the requested one
+    ctx.rule("R7", "the graph searched for the critical path is built with the requested flag-dependency setting (C03-R3)")
+    C.embed(ctx, "C03", lambda sub: c03.flag_threading(sub, "R3"), "R7", "flag dependencies (C03-R3)",
+            "the dependency graph in which the longest chain is searched lacks (or gains) the flag-dependency edges the user asked for, "
+            "so the reported critical path is not the longest chain of the kernel's dependency graph", f.where())
     # ------------------------------------------------------------------ R4 totals
     ctx.rule("R4", "CP total: text and dict use the same expression over get_critical_path()")
     cv = ctx.func("Frontend.combined_view")
